@@ -10,6 +10,8 @@ mod p_c15;
 mod p_c18;
 mod p_c19;
 mod p_curve;
+mod p_extra;
+mod p_sig;
 mod p_c04;
 mod p_shuffle;
 mod p_keys;
@@ -96,6 +98,8 @@ fn main() {
     std::panic::set_hook(Box::new(|_| {}));
     let mut h = Harness::new(&prop, tier, seed);
 
+    // C20 (signature front-ends) has no group context: only the SIG stream runs
+    if prop != "C20" {
     for (p, q, g) in small_sets_for(&h) {
         strand::verif_hooks::set_pverif(&p.to_string(), &q.to_string(), &g.to_string(), "2");
         run_prop(&mut h, nb::BigintCtx::<nb::verif::PVerif>::default(), false);
@@ -109,8 +113,14 @@ fn main() {
     }
     run_prop(&mut h, nb::BigintCtx::<nb::P2048>::default(), true);
     run_prop(&mut h, mal::MalachiteCtx::<mal::P2048>::default(), true);
-    if std::env::var("VERIF_R255").map(|v| v != "0").unwrap_or(false) {
+    if std::env::var("VERIF_R255").map(|v| v != "0").unwrap_or(true) {
         p_curve::run(&mut h);
+        if matches!(prop.as_str(), "C01" | "C11" | "C14" | "C15" | "C16" | "C17" | "C18") {
+            p_extra::run(&mut h);
+        }
+    }
+    } else {
+        p_sig::run(&mut h);
     }
 
     let mut f = std::io::BufWriter::new(std::fs::File::create(outdir.join("ops.txt")).unwrap());
